@@ -157,6 +157,22 @@ def canon_cmd(c):
     return out
 
 
+def model_cmds(sent, prefix):
+    """the commands a call sent, in the record format of spec/ClientOps.tla (Cmd): the configured key prefix taken off"""
+    def key(b):
+        b = b[len(prefix):] if prefix and b.startswith(prefix) else b
+        return b.decode("latin1")
+    out = []
+    for c in sent:
+        verb = c["verb"].decode("latin1") if isinstance(c.get("verb"), bytes) else str(c.get("verb"))
+        many = "keys" in c
+        out.append({"verb": verb, "k": "" if many or "key" not in c else key(c["key"]),
+                    "v": list(c.get("data", b"")), "exp": int(c.get("exptime", 0) or 0), "nr": bool(c.get("noreply", False)),
+                    "cas": int(c.get("cas", 0) or 0), "delta": int(c.get("delta", 0) or 0),
+                    "keys": [key(x) for x in c["keys"]] if many else []})
+    return out
+
+
 def conn_info(log):
     """socket options / timeouts of the connection activity of one call"""
     out = []
@@ -200,6 +216,11 @@ def replay_history(kind, hist, variant, extra=None, dn=None, prefix=None, **stac
         else:
             res = do_op(cl, ev, dn, variant + i, kind)
         ev = dict(ev, cmds=[canon_cmd(c) for c in net.sent_cmds], conn=conn_info(net.log[mark:]))
+        if kind != "hash3" and ev["op"] not in EXTRA_OPS:
+            try:
+                ev["wcmds"] = model_cmds(net.sent_cmds, prefix)
+            except Exception:   # noqa -- something unparseable went out: the results (and C02) judge that
+                pass
         if ev["op"] in ("gets", "gats") and res.get("t") == "pair" and res["b"].get("t") == "cas":
             last_cas[ev["k"]] = res["b"]["n"]
         if ev["op"] == "gets_many" and res.get("t") == "map":
@@ -211,7 +232,7 @@ def replay_history(kind, hist, variant, extra=None, dn=None, prefix=None, **stac
         cl.close()
     except Exception:
         pass
-    return {"h": {"now": START}, "ev": out, "variant": variant, "kind": kind, "net": net}
+    return {"h": {"now": START, "maxrej": 40}, "ev": out, "variant": variant, "kind": kind, "net": net}
 
 
 EXTRA_OPS = {"set-strval", "set-intval", "set-ukey", "get-ukey", "set-flags", "touch-kw", "get-many-empty", "gat-kw",
